@@ -706,3 +706,80 @@ Proof.
   split; [repeat constructor|]. split; [repeat constructor; cbn; tauto|].
   vm_compute. intros H. discriminate H.
 Qed.
+
+(* ================================ deepening round 3 ============================================ *)
+Section Deepen3.
+Context {A : Type}.
+Notation tensor := (tensor A).
+Notation param := (param A).
+Notation named := (named A).
+
+(* ---- a purely shrinking mutation introduces no fresh value: every entry of the result comes from
+        the old tensor at the same index (dual of grow_keeps_everything) ------------------------------- *)
+Theorem shrink_all_from_old_lemma : forall (old new : named) k op p,
+  wf_named old -> wf_named new ->
+  lookup k old = Some op -> lookup k new = Some p -> size_le (p_size p) (p_size op) = true ->
+  exists rp, lookup k (preserve old new) = Some rp /\
+    forall ix b, get (p_data rp) ix = Some b -> get (p_data op) ix = Some b.
+Proof.
+  intros old new k op p Wo Wn Ho Hn Hle.
+  pose proof (wf_lookup _ _ _ Wo Ho) as Wop. pose proof (wf_lookup _ _ _ Wn Hn) as Wp.
+  rewrite preserve_lookup, Hn. eexists; split; [reflexivity|]. intros ix b. unfold preserve_one. rewrite Ho.
+  destruct (size_eqb _ _); cbn [snd p_data]; [tauto|].
+  rewrite overlap_get. destruct (get (p_data p) ix) as [c|] eqn:Hc; [|discriminate].
+  assert (Rn : in_range ix (p_size p) = true) by (apply (get_in_range _ _ ix Wp); eauto).
+  pose proof (in_range_mono ix _ _ Hle Rn) as Ro.
+  apply (get_in_range _ _ ix Wop) in Ro as [a Ha]. rewrite Ha. intros H; exact H.
+Qed.
+
+(* ---- tied weights (two names bound to the same tensor, e.g. GPT wte / lm_head): if both names keep
+        their size the re-created network binds both names to the same tensor again ------------------- *)
+Theorem preserve_keeps_ties_lemma : forall (old new : named) k1 k2 op p1 p2,
+  lookup k1 old = Some op -> lookup k2 old = Some op ->
+  lookup k1 new = Some p1 -> lookup k2 new = Some p2 ->
+  p_size p1 = p_size op -> p_size p2 = p_size op ->
+  lookup k1 (preserve old new) = Some op /\ lookup k2 (preserve old new) = Some op.
+Proof.
+  intros old new k1 k2 op p1 p2 H1 H2 N1 N2 S1 S2.
+  rewrite !preserve_lookup, N1, N2. unfold preserve_one. rewrite H1, H2.
+  assert (E1 : size_eqb (p_size op) (p_size p1) = true) by (apply size_eqb_eq; congruence).
+  assert (E2 : size_eqb (p_size op) (p_size p2) = true) by (apply size_eqb_eq; congruence).
+  rewrite E1, E2. split; reflexivity.
+Qed.
+
+(* ---- signature along a chain of re-creations: names and sizes are those of the last architecture --- *)
+Definition sig_of (l : named) : list (string * list nat) := map (fun kp => (fst kp, p_size (snd kp))) l.
+
+Lemma preserve_sig (old new : named) : sig_of (preserve old new) = sig_of new.
+Proof.
+  unfold sig_of, preserve. rewrite map_map. apply map_ext. intros [k p]. unfold preserve_one.
+  destruct (lookup k old) as [op|]; [|reflexivity].
+  destruct (size_eqb _ _) eqn:E; [|reflexivity]. apply size_eqb_eq in E. cbn [fst snd]. congruence.
+Qed.
+
+Lemma last_default_irrelevant {T} (l : list T) (x d d' : T) : last (x :: l) d = last (x :: l) d'.
+Proof. revert x. induction l as [|y l IH]; intros x; [reflexivity|]. cbn [last] in *. apply IH. Qed.
+
+Theorem chain_signature_lemma : forall (fs : list named) (old : named),
+  sig_of (run_chain old fs) = sig_of (last fs old).
+Proof.
+  induction fs as [|f fs IH]; intros old; [reflexivity|].
+  cbn [run_chain fold_left]. change (fold_left (fun acc f0 => preserve acc f0) fs (preserve old f)) with (run_chain (preserve old f) fs).
+  rewrite IH. destruct fs as [|g fs]; [apply preserve_sig|].
+  rewrite (last_default_irrelevant fs g (preserve old f) old). reflexivity.
+Qed.
+
+(* ---- clones of clones: any chain of clone() calls (each rebuilt from the same init_dict) returns the
+        parameters of the first ancestor ------------------------------------------------------------ *)
+Lemma same_sig_keys_nodup (a b : named) : same_sig a b -> NoDup (map fst a) -> NoDup (map fst b).
+Proof. intros H. rewrite (same_sig_keys a b H). tauto. Qed.
+
+Theorem clone_chain_lemma : forall (freshes : list named) (self : named),
+  NoDup (map fst self) -> Forall (same_sig self) freshes ->
+  fold_left (fun cur fresh => clone cur fresh) freshes self = self.
+Proof.
+  induction freshes as [|f fs IH]; intros self Hnd Hall; [reflexivity|].
+  inversion Hall as [|? ? Hf Hfs]; subst. cbn [fold_left].
+  destruct (clone_same_lemma self f Hnd Hf) as [-> _]. apply IH; assumption.
+Qed.
+End Deepen3.
